@@ -7,6 +7,7 @@ import Driver.OpsEdit
 import Driver.OpsEditor
 import Driver.OpsExport
 import Driver.OpsGen
+import Driver.OpsGenXml
 import Driver.OpsFile
 import Driver.OpsCapi
 /-! `dovi_model`: the executable model behind the line protocol (one case per line in, one result per line out). -/
@@ -21,6 +22,7 @@ def step (line : String) : String :=
     else if op.startsWith "pq." then PqOps.run parts
     else if op.startsWith "file." then FileOps.run parts
     else if op == "gen" then GenOps.run parts
+    else if op == "genxml" || op == "xmlenc" then GenXmlOps.run parts
     else if op == "export" then ExportOps.run parts
     else if op == "editor" then EditorOps.run parts
     else if op.startsWith "capi." || op == "rpu.ops3" then CapiOps.run parts
